@@ -86,6 +86,28 @@ def artefacts_file(path, workdir, tag):
     import rnapolis.splitter as splitter
 
     out["clashfinder_stdout"] = run_tool(clashfinder, [path, "--enable-molprobity-mode", "--ignore-occupancy"])
+    # external-tool adapter on an FR3D-style listing derived from the structure itself (every nucleotide with the
+    # second next one, labels cycling through the families)
+    import rnapolis.adapter as adapter
+
+    nts = [r for r in s3.residues if r.is_nucleotide and r.auth is not None]
+    labels = ["cWW", "tHS", "s35", "s55", "0BPh", "7BR", "perp", "ncWWa", "s33", "cSH"]
+    lines = []
+    for k in range(0, max(0, len(nts) - 2)):
+        a, b = nts[k].auth, nts[k + 2].auth
+        lines.append(f"XXXX|1|{a.chain}|{a.name}|{a.number}|||{a.icode or ''}\t{labels[k % len(labels)]}\tXXXX|1|{b.chain}|{b.name}|{b.number}|||{b.icode or ''}\t0")
+    if lines and all("|" not in (r.auth.chain + r.auth.name) and "\t" not in r.auth.chain for r in nts):
+        lp = os.path.join(workdir, f"{tag}.fr3d.txt")
+        with open(lp, "w") as f:
+            f.write("\n".join(lines) + "\n")
+        aj, ac = os.path.join(workdir, f"{tag}.adapter.json"), os.path.join(workdir, f"{tag}.adapter.csv")
+        out["adapter_stdout"] = run_tool(adapter, [path, "--external", lp, "--tool", "fr3d", "--json", aj, "--csv", ac, "-a"])
+        for key, pth in (("adapter_json", aj), ("adapter_csv", ac)):
+            if os.path.exists(pth):
+                out[key] = open(pth, "rb").read()
+                os.remove(pth)
+        with contextlib.suppress(OSError):
+            os.remove(lp)
     bp = os.path.join(workdir, f"{tag}.tool.bpseq")
     with open(bp, "w") as f:
         f.write(s2.bpseq)
